@@ -115,7 +115,7 @@ def annotate(prog) -> List[Any]:
             elif k == "loop":
                 _, n, style, body = s[:4]
                 start, step = (s[4], s[5]) if len(s) > 4 else (0, 1)
-                node = {"k": "loop", "n": n, "style": style, "start": start, "step": step}
+                node = {"k": "loop", "n": n, "style": style, "start": start, "step": step, "reg": s[6] if len(s) > 6 else None}
                 node["body"] = walk(body, dict(env, i=style, v=False))
                 out.append(node)
             elif k in ("foreach", "enum"):
@@ -357,6 +357,8 @@ class Real:
                 kw = {}
                 if (n["start"], n["step"]) != (0, 1):
                     kw = {"start": n["start"], "step": n["step"]}
+                if n.get("reg"):
+                    kw["loop_register"] = n["reg"]        # documented: a specific register for the loop index
                 if n["style"] == "ctx":
                     with conn.loop(n["n"], **kw) as i:
                         self.build(n["body"], dict(env, i=i))
@@ -658,6 +660,10 @@ def compounds(depth: int, in_loop=None, has_v=False, small=False):
             for body in lbodies:
                 yield ("loop", n, style, body)
     if not small:
+        for reg in ("R9", "R0"):
+            yield ("loop", 2, "ctx", [("add", ("arr", "i"), 1, None)], 0, 1, reg)
+            yield ("loop", 2, "fn", [("m", "1", ("arr", "i"))], 0, 1, reg)
+            yield ("loop", 2, "ctx", [("loop", 2, "ctx", [("add", ("arr", 0), ("i",), None)])], 0, 1, reg)
         for start, stop, step in ((1, 3, 1), (0, 4, 2), (1, 3, 2)):
             yield ("loop", stop, "ctx", [("add", ("arr", 0), 1, None)], start, step)
             yield ("loop", stop, "fn", [("gp", "x")], start, step)
